@@ -358,248 +358,8 @@ def compare_with_sibling(py, sib, lang):
     return diffs
 
 
-# ---------------------------------------------------------------------------------------------
-# C. reference transducer from gherkin.berp (own position-automaton construction)
-# ---------------------------------------------------------------------------------------------
-class GNode:
-    def __init__(self, kind, **kw):
-        self.kind = kind          # seq | alt | opt | star | plus | tok | rule
-        self.children = kw.get("children", [])
-        self.name = kw.get("name")        # rule name / token kind
-        self.produces = kw.get("produces", False)
-        self.hint = kw.get("hint")        # (skip kinds, expected kind)
-        self.pos = None
-        self.parent = None
-
-
-def parse_berp(path):
-    """Reader of the (small) .berp grammar format.  Returns (rules: name -> (produces, hint, expr-text), settings)."""
-    with open(path, encoding="utf8") as f:
-        text = f.read()
-    header = re.search(r"\[(.*?)\]", text, re.S).group(1)
-    settings = {}
-    for line in header.splitlines():
-        if "->" in line:
-            k, v = line.split("->")
-            settings[k.strip()] = [x.strip() for x in v.split(",")]
-    body = text[text.index("]", text.index("[")) + 1:]
-    rules = {}
-    order = []
-    for line in body.splitlines():
-        line = line.split("//")[0].strip()
-        if not line:
-            continue
-        m = re.fullmatch(r"(\w+)(!?)\s*(\[[^\]]*\])?\s*:=\s*(.*)", line)
-        if not m:
-            raise ValueError("cannot read grammar line: " + line)
-        name, bang, hint, expr = m.groups()
-        h = None
-        if hint:
-            skip, exp = hint.strip("[]").split("->")
-            h = (tuple(x.strip().lstrip("#") for x in skip.split("|")), exp.strip().lstrip("#"))
-        rules[name] = (bool(bang), h, expr.strip())
-        order.append(name)
-    return rules, settings, order
-
-
-def _tokenize(expr):
-    return re.findall(r"#\w+|\w+|[()|?*+]", expr)
-
-
-def build_tree(rules, start):
-    counter = itertools.count()
-    positions = []
-
-    def expand_rule(name):
-        produces, hint, expr = rules[name]
-        toks = _tokenize(expr)
-        node, rest = parse_alt(toks)
-        if rest:
-            raise ValueError("trailing tokens in rule " + name)
-        r = GNode("rule", name=name, produces=produces, hint=hint, children=[node])
-        return r
-
-    def parse_alt(toks):
-        alts = []
-        seq, toks = parse_seq(toks)
-        alts.append(seq)
-        while toks and toks[0] == "|":
-            seq, toks = parse_seq(toks[1:])
-            alts.append(seq)
-        return (alts[0] if len(alts) == 1 else GNode("alt", children=alts)), toks
-
-    def parse_seq(toks):
-        items = []
-        while toks and toks[0] not in (")", "|"):
-            t = toks[0]
-            toks = toks[1:]
-            if t == "(":
-                node, toks = parse_alt(toks)
-                if not toks or toks[0] != ")":
-                    raise ValueError("missing )")
-                toks = toks[1:]
-            elif t.startswith("#"):
-                node = GNode("tok", name=t[1:])
-                node.pos = next(counter)
-                positions.append(node)
-            else:
-                node = expand_rule(t)
-            while toks and toks[0] in "?*+":
-                node = GNode({"?": "opt", "*": "star", "+": "plus"}[toks[0]], children=[node])
-                toks = toks[1:]
-            items.append(node)
-        return (items[0] if len(items) == 1 else GNode("seq", children=items)), toks
-
-    start_tok = GNode("tok", name="$START")
-    start_tok.pos = next(counter)
-    positions.append(start_tok)
-    body = expand_rule(start)
-    eof = GNode("tok", name="EOF")
-    eof.pos = next(counter)
-    positions.append(eof)
-    # EOF is built inside GherkinDocument (parse() opens/closes that rule itself, outside the table)
-    inner = body.children[0]
-    body.children = [GNode("seq", children=[start_tok, inner, eof])]
-    body.produces = False
-
-    def link(n, parent):
-        n.parent = parent
-        for c in n.children:
-            link(c, n)
-    link(body, None)
-    return body, positions
-
-
-def glushkov(root):
-    """nullable / first / last and follow edges (p, q, turning node), follow lists ordered nearest-first."""
-    info = {}
-    follow = {}
-
-    def visit(n):
-        for c in n.children:
-            visit(c)
-        k = n.kind
-        if k == "tok":
-            info[n] = (False, [n], [n])
-        elif k == "rule":
-            info[n] = info[n.children[0]]
-        elif k == "alt":
-            info[n] = (any(info[c][0] for c in n.children), sum((info[c][1] for c in n.children), []),
-                       sum((info[c][2] for c in n.children), []))
-        elif k == "opt":
-            c = n.children[0]
-            info[n] = (True, info[c][1], info[c][2])
-        elif k in ("star", "plus"):
-            c = n.children[0]
-            for p in info[c][2]:
-                for q in info[c][1]:
-                    follow.setdefault(p, []).append((q, n))
-            info[n] = (k == "star" or info[c][0], info[c][1], info[c][2])
-        elif k == "seq":
-            cs = n.children
-            for i in range(len(cs)):
-                for j in range(i + 1, len(cs)):
-                    if all(info[cs[m]][0] for m in range(i + 1, j)):
-                        for p in info[cs[i]][2]:
-                            for q in info[cs[j]][1]:
-                                follow.setdefault(p, []).append((q, n))
-            first, last = [], []
-            for i, c in enumerate(cs):
-                if all(info[cs[m]][0] for m in range(i)):
-                    first += info[c][1]
-            for i, c in enumerate(cs):
-                if all(info[cs[m]][0] for m in range(i + 1, len(cs))):
-                    last += info[c][2]
-            info[n] = (all(info[c][0] for c in cs), first, last)
-    visit(root)
-    return follow
-
-
-def ancestors(n):
-    out = []
-    while n is not None:
-        out.append(n)
-        n = n.parent
-    return out[::-1]          # root first
-
-
-def depth(n):
-    return len(ancestors(n))
-
-
-class RefOption:
-    def __init__(self, p, q, turn):
-        self.q = q
-        self.kind = q.name
-        pa, qa = ancestors(p), ancestors(q)
-        ti = pa.index(turn)
-        self.events = tuple([("end", a.name) for a in reversed(pa[ti + 1:]) if a.kind == "rule" and a.produces]
-                            + [("start", a.name) for a in qa[qa.index(turn) + 1:] if a.kind == "rule" and a.produces]
-                            + [("build",)])
-        hints = [a.hint for a in qa[qa.index(turn) + 1:] if a.kind == "rule" and a.hint]
-        self.hint = None
-        for h in hints:
-            if q.name in h[0]:
-                self.hint = h[1]        # the kind that must follow the run of skipped lines
-        self.turn_depth = ti
-
-
-class Reference:
-    def __init__(self, berp_path):
-        self.rules, self.settings, order = parse_berp(berp_path)
-        self.ignored = [t.lstrip("#") for t in self.settings.get("IgnoredTokens", [])]
-        self.root, self.positions = build_tree(self.rules, order[0])
-        fol = glushkov(self.root)
-        self.follow = {}
-        for p in self.positions:
-            opts = [RefOption(p, q, turn) for q, turn in fol.get(p, [])]
-            # nearest first: deeper turning node first; stable otherwise (grammar order)
-            opts.sort(key=lambda o: -o.turn_depth)
-            self.follow[p.pos] = opts
-        self.start = self.positions[0].pos
-
-    def step(self, pos, kinds, oracle):
-        """kinds: set of kinds the line has (without 'Other' for EOF).  Returns ('go', events, newpos) |
-        ('ignored',) | ('error', expected-kinds)."""
-        opts = self.follow[pos]
-        cands = [o for o in opts if o.kind in kinds and o.kind != "Other"]
-        # '# language' lines count as Language where that is expected, else as Comment
-        if "Language" in kinds and any(o.kind == "Language" for o in cands):
-            cands = [o for o in cands if o.kind == "Language"]
-        eligible = [o for o in cands if o.hint is None or o.hint == oracle]
-        if eligible:
-            o = eligible[0]
-            return ("go", o.events, o.q.pos)
-        has_other = any(o.kind == "Other" for o in opts)
-        if (kinds & set(self.ignored)) and not has_other:
-            return ("ignored",)
-        if has_other and "Other" in kinds:
-            o = [o for o in opts if o.kind == "Other"][0]
-            return ("go", o.events, o.q.pos)
-        exp = []
-        for o in opts:
-            if o.kind not in exp:
-                exp.append(o.kind)
-        return ("error", tuple(exp))
-
-
-LINE_KINDS = [
-    ("EOF", frozenset(["EOF"])),
-    ("Empty", frozenset(["Empty", "Other"])),
-    ("Comment", frozenset(["Comment", "Other"])),
-    ("Language", frozenset(["Language", "Comment", "Other"])),
-    ("TagLine", frozenset(["TagLine", "Other"])),
-    ("FeatureLine", frozenset(["FeatureLine", "Other"])),
-    ("RuleLine", frozenset(["RuleLine", "Other"])),
-    ("BackgroundLine", frozenset(["BackgroundLine", "Other"])),
-    ("ScenarioLine", frozenset(["ScenarioLine", "Other"])),
-    ("ExamplesLine", frozenset(["ExamplesLine", "Other"])),
-    ("StepLine", frozenset(["StepLine", "Other"])),
-    ("DocStringSeparator", frozenset(["DocStringSeparator", "Other"])),
-    ("TableRow", frozenset(["TableRow", "Other"])),
-    ("Other", frozenset(["Other"])),
-]
-ORACLES = [None, "ScenarioLine", "ExamplesLine"]
+from .grammar import *  # noqa: F401,F403  (Reference, LINE_KINDS, ORACLES, parse_berp ...)
+from .grammar import Reference, LINE_KINDS, ORACLES
 
 
 def py_step(entry, kinds, oracle):
